@@ -100,6 +100,12 @@ func topParams(t *rapid.T, typ reflect.Type, spec TypeSpec) string {
 	if spec.Prim == "string" {
 		opts = []string{"utf8", "ia5", "graphic", "utf8,tagNum:4"}
 	}
+	if spec.Prim == "utf8" || spec.Prim == "ia5" || spec.Prim == "graphic" {
+		opts = []string{"", "", "utf8", "ia5", "graphic", "tagNum:3", "tagNum:3,ia5"} // a typed string, with and without a string kind (also another one)
+	}
+	if typ.Kind() == reflect.Slice && typ.Elem().Kind() != reflect.Uint8 {
+		opts = append(opts, "set", "set", "tagNum:2,set")
+	}
 	return rapid.SampledFrom(opts).Draw(t, "params")
 }
 
@@ -178,7 +184,7 @@ func judgeC04(c Case) *h.Verdict {
 	}
 	e := &refEnc{}
 	ref, referr := e.encode(pv, parseTag(c.Params))
-	if referr == errAmbiguous || referr == errUnsupKind {
+	if referr == errAmbiguous || referr == errUnsupKind || referr == errNoRef {
 		v.Skipped = true
 		return v
 	}
@@ -406,7 +412,12 @@ func judgeC05(c Case) *h.Verdict {
 		v.Skipped = true
 		return v
 	}
-	labelFeats(v, c, e)
+	if referr == errNoRef {
+		referr = nil // no reference bytes, but the round trip is demanded all the same
+		v.Label("set-of-constructed-elements")
+	} else {
+		labelFeats(v, c, e)
+	}
 	var enc []byte
 	var merr error
 	if p, _, _ := h.Safely(func() { enc, merr = asn.BerMarshalWithParams(pv.Interface(), c.Params) }); p {
